@@ -58,11 +58,73 @@ def inject_job(job):
     return res
 
 
+def presidential_files(rng, case):
+    """the three files of the presidential race that correct_from_presidential reads (baseline, results so far, unit predictions), as csv text;
+    the presidential numbers sit near the race's own, with a few units pushed to the edge of what is feasible"""
+    import pandas as pd
+
+    feed = {f["geographic_unit_fips"]: f for f in case["feed"]}
+    brows, rrows, prows = [], [], []
+    for b in case["baseline"]:
+        uid = b["geographic_unit_fips"]
+        two = max(1, b["baseline_dem"] + b["baseline_gop"])
+        shift = rng.uniform(-0.08, 0.08)
+        d = int(round(min(two, max(0, b["baseline_dem"] + shift * two))))
+        brows.append({"postal_code": b["postal_code"], "geographic_unit_fips": uid, "baseline_dem": d, "baseline_gop": two - d})
+        f = feed.get(uid)
+        if f is None:
+            continue
+        tot = max(0, f["results_dem"] + f["results_gop"])
+        nm_now = ((f["results_dem"] - f["results_gop"]) / tot) if tot else 0.0
+        off = rng.choice([0.0, -0.03, 0.04, -0.4, 0.5])
+        p_nm = min(1.0, max(-1.0, nm_now - off))
+        p_dem = int(round(tot * (1 + p_nm) / 2))
+        final = max(tot, int(round(two * rng.uniform(0.8, 1.3))))
+        pred_nm = rng.choice([p_nm, min(1.0, p_nm + 0.05), max(-1.0, p_nm - 0.05), 0.99, -0.99, 1.0])
+        rrows.append({"postal_code": b["postal_code"], "geographic_unit_fips": uid, "results_dem": p_dem, "results_gop": tot - p_dem, "results_weights": tot})
+        prows.append({"postal_code": b["postal_code"], "geographic_unit_fips": uid, "pred_margin": int(round(final * pred_nm)), "pred_turnout": final,
+                      "results_margin": 2 * p_dem - tot, "reporting": int(f["percent_expected_vote"] >= 100)})
+    return {"data/P/data_county.csv": pd.DataFrame(brows).to_csv(index=False), "results/P/county/current.csv": pd.DataFrame(rrows).to_csv(index=False),
+            "predictions/P/county/unit_data/current.csv": pd.DataFrame(prows).to_csv(index=False)}
+
+
 def api_job(job):
     seed, kw = job
+    kw = dict(kw)
+    pres = kw.pop("presidential", False)
     rng = random.Random(seed)
     case = gen.gen_case(rng, pi_method="bootstrap", alphas=[0.6, 0.8, 0.95], **kw)
-    h = aggfam.harvest(case)
+    if pres:
+        # the (rarely used) correction from the presidential race of the same election: its files come from an in-memory stand-in
+        from harness import run_impl
+
+        run_impl._imp()
+        import elexmodel.handlers.s3 as s3mod
+
+        files = presidential_files(rng, case)
+        case["params"]["model_parameters"]["correct_from_presidential"] = True
+
+        class FakeCsv:
+            def __init__(self, bucket_name, client=None):
+                self.bucket_name = bucket_name
+
+            def get(self, filename, load=True, **k):
+                for suffix, text in files.items():
+                    if filename.endswith(suffix):
+                        return text
+                raise KeyError(filename)
+
+            def put(self, filename, data, **k):
+                return None
+
+        orig = s3mod.S3CsvUtil
+        s3mod.S3CsvUtil = FakeCsv
+        try:
+            h = aggfam.harvest(case)
+        finally:
+            s3mod.S3CsvUtil = orig
+    else:
+        h = aggfam.harvest(case)
     res = {"job": list(job), "ok": h["ok"], "exc": h.get("exc"), "fails": [], "fp": aggfam.fingerprint(case, h), "nontrivial": aggfam.nontrivial(case, h) or False}
     if not h["ok"]:
         return res
@@ -191,6 +253,8 @@ def run(chk):
             kw["office"] = "H"
         if i % 4 == 2:
             kw["model_parameters"] = {"lambda_": [0.0, 1.0, 50.0][i % 3]}
+        if i % 6 == 3:
+            kw.update({"office": "S", "unit_type": "county", "presidential": True, "n_unexpected": 0, "aggregates": ["postal_code", "county_fips", "unit"]})
         ajobs.append((rng.randint(0, 2**31), kw))
     api = core.pmap(api_job, ajobs)
     n_ok = 0
